@@ -40,6 +40,7 @@ func ruleC18(w *World, r *Report) {
 		"R18.3 validator facts: for each (parser, field, condition) the nil return of validateConf is unreachable unless the parse succeeded, and under the condition every path to it runs the parse; mode ∈ literal set ⊆ the modes conf/ports.py accepts for BESS, mode empty for P4; every peer is parsed (full loop); R18.4 consumer⊆validator: every parse of a Conf field whose failure ends the process (NewUPF, UP4.SetUpfInfo, MustParseStrIP) is covered by a validator fact whose condition is implied by the consumer's; the UP4 datapath is only constructed under EnableP4rt; " +
 		"R18.5 crash obligations of the loader functions, the comment pattern compiles; R18.6 structure of the comment pattern (regexp/syntax tree): line comment to end of line under (?m), block comment with a lazy body that cannot cross a newline; R18.7 shipped samples: comments only of the two supported shapes and outside strings, no string contains a comment marker, Go-known keys carry values of the field's JSON kind, validator-relevant literals satisfy the validator's facts."
 	r.Explanation += " R18.8 no custom UnmarshalJSON/UnmarshalText between Conf and a pre-decode default replaces its receiver with a value that does not start from the receiver."
+	r.Explanation += " R18.1 (cont.) the file is decoded into a configuration local to the call."
 	r.NotDecided = "behaviour of encoding/json, regexp and time.ParseDuration themselves; 'every sample loads' beyond the cross-artifact agreement of R18.7; NewIPPool's own size limit (a /31 or /32 pool parses but is refused at start-up)"
 
 	load := w.Fn(P, "pfcpiface.LoadConfigFile")
